@@ -92,11 +92,13 @@ def apply_history(ctx, kind, m, p, rng, nops):
             invalid = rng.random() < 0.25
             if which == "fc":
                 v = float(rng.choice([100.0, 1600.0, 149.999])) if invalid else \
-                    float(rng.uniform(150, 1500))
+                    float(rng.choice([rng.uniform(150, 1500), 150.0, 1500.0]))     # limits included
             elif which == "hbs":
-                v = float(rng.choice([29.0, 201.0])) if invalid else float(rng.uniform(30, 200))
+                v = float(rng.choice([29.0, 201.0])) if invalid else \
+                    float(rng.choice([rng.uniform(30, 200), 30.0, 200.0]))
             elif which == "hms":
-                v = float(rng.choice([0.5, 10.5])) if invalid else float(rng.uniform(1, 10))
+                v = float(rng.choice([0.5, 10.5])) if invalid else \
+                    float(rng.choice([rng.uniform(1, 10), 1.0, 10.0]))
             else:
                 v = "moon" if invalid else str(rng.choice(AREAS))
             attr = {"fc": "fc", "hbs": "hbs", "hms": "hms", "area": "area_type"}[which]
@@ -117,6 +119,25 @@ def apply_history(ctx, kind, m, p, rng, nops):
             kinds.append(attr + ("=!" if invalid else "="))
         else:
             break
+    if rng.random() < 0.25:
+        # the curve is drawn on a caller-supplied axis in between: a read-only
+        # use of the model, its configuration must be what it was
+        class _Ax:
+            def plot(self, *a, **k):
+                self.calls = getattr(self, "calls", 0) + 1
+        d = np.array([5.0, 20.0]) if kind == "metis" else np.array([1.0, 5.0])
+        before = (m.handle_small_distances_bool, m.use_shadow_bool)
+        ax = _Ax()
+        try:
+            m.plot_deterministic_path_loss_in_dB(d, ax)
+            ctx.ev("setter-validation", (m.handle_small_distances_bool, m.use_shadow_bool) == before
+                   and getattr(ax, "calls", 0) == 1, cls="plot-changed-the-configuration",
+                   detail={"model": kind, "before": before,
+                           "after": (m.handle_small_distances_bool, m.use_shadow_bool)})
+        except Exception as e:
+            ctx.ev("setter-validation", False, cls="plot-raised:" + type(e).__name__,
+                   detail={"model": kind, "exc": repr(e)})
+        kinds.append("plot")
     return kinds
 
 
@@ -375,6 +396,8 @@ def case_antenna(ctx, rng, idx):
             ang[7:9] = [180.0, -180.0]
         if form == "2d":
             ang = ang.reshape(4, 6)
+        if rng.random() < 0.3:
+            ang = np.rint(ang).astype([np.int64, np.int32][int(rng.integers(0, 2))])   # whole degrees
     else:
         v = float(rng.uniform(-180, 180))
         if kind != "omni" and rng.random() < 0.5:
